@@ -1,0 +1,155 @@
+//go:build verif
+
+package rpc
+
+import (
+	"net/http"
+	"sync"
+	"time"
+
+	lru "github.com/hashicorp/golang-lru/v2"
+	"golang.org/x/time/rate"
+)
+
+// Read-only accessors for the model-based verification harness (build tag `verif` only).
+// connLimit and rateLimit keep their state in closure-local variables; the two hook calls
+// verifSem / verifCache hand the freshly created semaphore / cache to the constructor
+// wrappers below, which return them as read-only views next to the real handler.
+
+var (
+	verifMu        sync.Mutex // serialises the Verif* constructors
+	verifLastMu    sync.Mutex
+	verifLastSem   chan struct{}
+	verifLastCache *lru.Cache[string, *rate.Limiter]
+)
+
+func verifSem(s chan struct{}) {
+	verifLastMu.Lock()
+	verifLastSem = s
+	verifLastMu.Unlock()
+}
+
+func verifCache(c *lru.Cache[string, *rate.Limiter]) {
+	verifLastMu.Lock()
+	verifLastCache = c
+	verifLastMu.Unlock()
+}
+
+func verifTake() (chan struct{}, *lru.Cache[string, *rate.Limiter]) {
+	verifLastMu.Lock()
+	defer verifLastMu.Unlock()
+	s, c := verifLastSem, verifLastCache
+	verifLastSem, verifLastCache = nil, nil
+	return s, c
+}
+
+// VerifView is a read-only view of the state behind one handler stack.
+type VerifView struct {
+	sem   chan struct{}
+	cache *lru.Cache[string, *rate.Limiter]
+	ws    *rpcMetrics
+}
+
+// SlotsInUse is the number of connLimit slots currently taken (-1: no connLimit in the stack).
+func (v *VerifView) SlotsInUse() int {
+	if v.sem == nil {
+		return -1
+	}
+	return len(v.sem)
+}
+
+// SlotsCap is the capacity of the connLimit semaphore.
+func (v *VerifView) SlotsCap() int {
+	if v.sem == nil {
+		return -1
+	}
+	return cap(v.sem)
+}
+
+// HasRateLimit reports whether a rateLimit layer was built.
+func (v *VerifView) HasRateLimit() bool { return v.cache != nil }
+
+// CacheKeys lists the cached per-IP buckets, least recently used first.
+func (v *VerifView) CacheKeys() []string {
+	if v.cache == nil {
+		return nil
+	}
+	return v.cache.Keys()
+}
+
+// Tokens returns the tokens the bucket of ip holds now (does not touch recency).
+func (v *VerifView) Tokens(ip string) (float64, bool) {
+	if v.cache == nil {
+		return 0, false
+	}
+	l, ok := v.cache.Peek(ip)
+	if !ok {
+		return 0, false
+	}
+	return l.TokensAt(time.Now()), true
+}
+
+// WebsocketsOpen is the live-websocket gauge maintained by trackWebsocket (-1: not tracked).
+func (v *VerifView) WebsocketsOpen() int64 {
+	if v.ws == nil {
+		return -1
+	}
+	return v.ws.websocketConnsOpen.Load()
+}
+
+// VerifNewConnLimit is connLimit plus a view of its semaphore.
+func VerifNewConnLimit(maxConns int, next http.Handler) (http.Handler, *VerifView) {
+	verifMu.Lock()
+	defer verifMu.Unlock()
+	verifTake()
+	h := connLimit(maxConns, next)
+	s, _ := verifTake()
+	return h, &VerifView{sem: s}
+}
+
+// VerifNewRateLimit is rateLimit plus a view of its cache.
+func VerifNewRateLimit(rps, burst, cacheSize int, next http.Handler) (http.Handler, *VerifView) {
+	verifMu.Lock()
+	defer verifMu.Unlock()
+	verifTake()
+	h := rateLimit(rps, burst, cacheSize, next)
+	_, c := verifTake()
+	return h, &VerifView{cache: c}
+}
+
+// VerifNewStack composes the real middleware constructors around core in the order of
+// Server.newHandlerStack (outermost first): rateLimit (when rateOn) -> connLimit ->
+// trackWebsocket -> core. Auth/CORS/otelhttp are left out.
+func VerifNewStack(rateOn bool, rps, burst, cacheSize, maxConns int, core http.Handler) (http.Handler, *VerifView) {
+	verifMu.Lock()
+	defer verifMu.Unlock()
+	verifTake()
+	m := &rpcMetrics{}
+	h := m.trackWebsocket(core)
+	h = connLimit(maxConns, h)
+	if rateOn {
+		h = rateLimit(rps, burst, cacheSize, h)
+	}
+	s, c := verifTake()
+	return h, &VerifView{sem: s, cache: c, ws: m}
+}
+
+// VerifServerStack builds the handler stack of s around s.rpc exactly as NewServer / WithMetrics do
+// (Server.newHandlerStack), installs it, and returns it with a view of its state.
+func VerifServerStack(s *Server) (http.Handler, *VerifView) {
+	verifMu.Lock()
+	defer verifMu.Unlock()
+	verifTake()
+	h := s.newHandlerStack(s.rpc)
+	s.srv.Handler = h
+	sem, c := verifTake()
+	return h, &VerifView{sem: sem, cache: c, ws: s.metrics}
+}
+
+// VerifExtractIP is extractIP on a request with the given RemoteAddr.
+func VerifExtractIP(remoteAddr string) string {
+	return extractIP(&http.Request{RemoteAddr: remoteAddr})
+}
+
+// VerifMaxConcurrentConns is the connLimit bound of the server's stack.
+func VerifMaxConcurrentConns() int { return maxConcurrentConns }
